@@ -59,6 +59,16 @@ class IndexEnum:
                 if isinstance(v, int) and not isinstance(v, bool):
                     return v
                 raise NotEvaluable(norm(e))
+            if f in ('numpy.tril_indices', 'numpy.triu_indices') and len(e.args) == 1:
+                # the index arrays NumPy documents: row-major enumeration of the lower / upper triangle (k = 0, square)
+                n_ = self.ev(e.args[0], env)
+                if isinstance(n_, int) and not isinstance(n_, bool) and 0 <= n_ <= 64:
+                    if f.endswith('tril_indices'):
+                        pairs = [(i, j) for i in range(n_) for j in range(i + 1)]
+                    else:
+                        pairs = [(i, j) for i in range(n_) for j in range(i, n_)]
+                    return (tuple(p_[0] for p_ in pairs), tuple(p_[1] for p_ in pairs))
+                raise NotEvaluable(norm(e))
             if f == 'len' and len(e.args) == 1:
                 v = self.ev(e.args[0], env)
                 if isinstance(v, tuple):
@@ -343,6 +353,25 @@ class IndexEnum:
 
     def record(self, st):
         cnts, pairs, bad = set(), set(), []
+        # a gather / scatter through two index sequences of one length: `v[...] = A[rows, cols]`, `A[rows, cols] += v`:
+        # position k of the vector goes with the entry (rows[k], cols[k])
+        fancy = []
+        for sb in ast.walk(st):
+            if isinstance(sb, ast.Subscript) and isinstance(sb.slice, ast.Tuple) and len(sb.slice.elts) == 2 \
+                    and all(isinstance(e_, ast.Name) for e_ in sb.slice.elts):
+                try:
+                    a_, b_ = (self.ev(e_) for e_ in sb.slice.elts)
+                except NotEvaluable:
+                    continue
+                if isinstance(a_, tuple) and isinstance(b_, tuple) and len(a_) == len(b_) and a_ and all(isinstance(x, int) for x in a_ + b_):
+                    fancy.append(list(zip(a_, b_)))
+        if fancy:
+            if len(fancy) == 1 and isinstance(st, (ast.Assign, ast.AugAssign)):
+                for k, pr in enumerate(fancy[0]):
+                    self.events.append((k, (pr,)))
+            else:
+                self.unknown.append('statement `%s`: several index-array subscripts' % norm(st)[:60])
+            return
         for sb in ast.walk(st):
             if not isinstance(sb, ast.Subscript):
                 continue
